@@ -2,7 +2,7 @@
    Codes: 0 ok | 1 model/implementation mismatch | 2 property rejected on the implementation's
    observation | 3 both | 4 implementation panicked. *)
 From BV Require Import Base.Prelude Model.Block Model.ForkDB Model.Forkable Model.ForkableLookups
-  Spec.Consumer Spec.Universe Spec.ForkChoice Spec.C01_Spec Check.Fk_Check.
+  Spec.Consumer Spec.Universe Spec.ForkChoice Spec.C01_Spec Spec.C01_More_Spec Check.Fk_Check.
 Local Open Scope N_scope.
 
 Definition obs_trace (k : fk_case) : trace := map (fun o => (o_events o, o_result o)) (k_obs k).
@@ -27,11 +27,17 @@ Definition c01_prop (k : fk_case) : bool :=
 Definition c01_verdict (k : fk_case) : N := combine k (c01_prop k).
 Definition c01_verdicts (l : list fk_case) := nonzero (map c01_verdict l).
 
-(* cases that meet every hypothesis of c01_fixed_lib_partial (Properties/C01.v): counted in the evidence *)
+(* cases that meet every hypothesis of one of the C01 theorems (c01_fixed_lib_incl_partial covers exclusive and
+   inclusive LIBs with any handler oracle, c01_fixed_lib_disc_partial hold-until-LIB discovery): counted in the evidence *)
 Definition c01_thm_scope (k : fk_case) : bool :=
-  match k_mode k, c_fail_at (k_cfg k) with
-  | LExcl r0, None => negb (c_incl (k_cfg k)) && filt_nu k && c01_fixed_scope_b r0 (k_hist k)
-  | _, _ => false
+  filt_nu k &&
+  match k_mode k with
+  | LExcl r0 | LIncl r0 => c01_fixed_scope_b r0 (k_hist k)
+  | LNone => c_hold (k_cfg k) &&
+             match k_hist k with
+             | b :: _ => c01_disc_scope_b (blib b) (c_first (k_cfg k)) (k_hist k)
+             | [] => false
+             end
   end.
 
 (* ---- C02 ---- *)
